@@ -35,6 +35,32 @@ def selfcheck():
     return 0
 
 
+def calibrate(ctx):
+    """thorough tier: run this property's slice of the mutation / refactor corpus on scratch copies of the current tree.
+    Calibration of the checker (is its silence meaningful, does it stay silent on equivalent code) - it never changes
+    the verdict on the tree itself."""
+    if ctx.findings or ctx.unknowns:
+        ctx.extra_cov["selftest"] = "skipped: the tree itself is not clean, variants would be meaningless"
+        return "Calibration corpus skipped (tree not clean)."
+    from selftest.run import run
+    res = run({ctx.pid}, root=ctx.root)
+    ok = [r for r in res if r[2] == "ok"]
+    bad = [r for r in res if r[2] in ("MISMATCH", "broken-variant")]
+    from selftest.corpus import V
+    kinds = {v["id"]: v["kind"] for v in V}
+    ctx.extra_cov["selftest"] = {
+        "variants_run": len(res), "as_expected": len(ok), "skipped_anchor_moved": sum(1 for r in res if r[2] == "skipped"),
+        "breaking_detected": sum(1 for r in ok if kinds[r[0]] == "break"), "preserving_silent": sum(1 for r in ok if kinds[r[0]] == "keep"),
+        "mismatches": ["%s %s" % (r[0], r[3]) for r in bad],
+    }
+    for r in bad:
+        print("SELFTEST-MISMATCH %s %s: %s" % (r[0], r[1], r[3]))
+    return ("Calibration: %d corpus variants of this property analysed on scratch copies: %d breaking edits detected, %d behaviour-preserving "
+            "rewrites silent, %d skipped, %d not as expected." % (len(res), ctx.extra_cov["selftest"]["breaking_detected"],
+                                                                  ctx.extra_cov["selftest"]["preserving_silent"],
+                                                                  ctx.extra_cov["selftest"]["skipped_anchor_moved"], len(bad)))
+
+
 def main():
     if len(sys.argv) > 1 and sys.argv[1] == "--selfcheck":
         return selfcheck()
@@ -66,6 +92,8 @@ def main():
             expl2 = mod.thorough(ctx)
             if expl2:
                 expl = expl + " " + expl2
+        if a.tier == "thorough" and not a.replay:
+            expl = expl + " " + calibrate(ctx)
     except AnalysisError as e:
         ctx.unknown("engine", str(e))
         expl = "analysis aborted: %s" % e
